@@ -165,6 +165,11 @@ func (rfp MaskedTransformProtocol) Transform(ct *rlwe.Ciphertext, transform *Mas
 		return fmt.Errorf("cannot Transform: crs level and s2e level must be the same")
 	}
 
+	// The output is a ciphertext of the (transformed) message with the metadata of the input.
+	if ct != ciphertextOut {
+		*ciphertextOut.MetaData = *ct.MetaData
+	}
+
 	rfp.e2s.GetShare(nil, share.EncToShareShare, ct, &multiparty.AdditiveShare{Value: rfp.tmpMask}) // tmpMask RingT(m - sum M_i)
 	mask := rfp.tmpMask
 	if transform != nil {
